@@ -32,7 +32,6 @@ KINDS = {
     "huawei:multi_all:hybrid-untagged": dict(hw="Huawei CE6870", block="interface 10GE1/0/1", prefix="port hybrid untagged vlan", fam="huawei",
                                              clear="undo port hybrid untagged vlan all"),
     "huawei:multi:vlan-batch": dict(hw="Huawei CE6870", block=None, prefix="vlan batch", fam="huawei", clear="undo vlan batch all"),
-    "huawei:multi:vlan-pool": dict(hw="Huawei CE6870", block="vlan pool P1", prefix="vlan", fam="huawei", clear="undo vlan all"),
     "huawei:single:stp-instance": dict(hw="Huawei CE6870", block="stp region-configuration", prefix="instance 1 vlan", fam="huawei",
                                        clear="undo instance 1", max_lines=1),
     "cisco:swtrunk:allowed-vlan": dict(hw="Cisco Catalyst 3750", block="interface GigabitEthernet1/0/1", prefix="switchport trunk allowed vlan",
@@ -43,11 +42,12 @@ KINDS = {
     "cisco:simple:vlan-group": dict(hw="Cisco Catalyst 3750", block=None, prefix="vlan group G1 vlan-list", fam="cisco-simple"),
 }
 PRINCIPAL = ["huawei:multi_all:trunk-allow-pass", "nexus:swtrunk:allowed-vlan"]
-QUICK2 = ["huawei:multi_all:hybrid-tagged", "huawei:multi_all:hybrid-untagged", "cisco:simple:vlan", "cisco:simple:vlan-group"]
+UNIVERSE5 = [2, 3, 4, 10, 11]
 # thorough tier: kinds whose splittings are exhaustive on the 8-element universe / on the 7-element universe (others: 6)
 FULL8 = ["huawei:multi_all:trunk-allow-pass"]
-SEVEN = ["nexus:swtrunk:allowed-vlan", "cisco:swtrunk:allowed-vlan", "huawei:multi:vlan-batch", "huawei:multi:vlan-pool",
-         "cisco:simple:vlan", "nexus:simple:vlan"]
+SEVEN = ["nexus:swtrunk:allowed-vlan", "huawei:multi:vlan-batch"]
+# (the rule `vlan pool * / vlan *` also uses huawei.vlandb.multi; it is not one of the VLAN-list kinds the statement
+#  enumerates and is outside the scope of this module)
 
 
 # ---------------------------------------------------------------- independent list syntax (written from the vendor CLI forms)
@@ -241,11 +241,7 @@ def emitted(kind, old_parts, new_parts):
 
 
 def key_of(kind, cls):
-    vendor, logic, rule = kind.split(":")
-    if kind == "huawei:multi:vlan-pool":
-        # the shipped rule is `vlan *` (keyed by the first word of the list), not `vlan`: a different rule shape than the
-        # other list rules, hence its own key
-        return "bounded:C11:%s:%s:%s:%s" % (vendor, logic, rule, cls)
+    vendor, logic, _ = kind.split(":")
     return "bounded:C11:%s:%s:%s" % (vendor, logic, cls)
 
 
@@ -444,16 +440,19 @@ def cases(tier, seed, part, nparts):
                 yield dict(kind="lib", vlans=s, chunk=chunk)
     # (A) exhaustive splittings: all pairs of subsets of a small universe x all splittings of both sides
     for kind in kinds:
-        small = UNIVERSE7 if (tier != "quick" and kind in SEVEN) else UNIVERSE6
-        if tier != "quick" and kind in FULL8:
-            continue
-        vs = variants(kind, small, 2 if (tier == "quick" and kind in QUICK2) else MAX_LINES)
+        if tier == "quick":
+            small = UNIVERSE5
+        else:
+            if kind in FULL8:
+                continue
+            small = UNIVERSE7 if kind in SEVEN else UNIVERSE6
+        vs = variants(kind, small, MAX_LINES)
         for o in vs:
             for n in vs:
                 i += 1
                 if i % nparts == part:
                     yield dict(kind=kind, old_lines=list(o), new_lines=list(n))
-    # (B) the 8-element universe, all 65536 pairs of subsets
+    # (B) the 8-element universe, the 65536 pairs of subsets
     for kind in (PRINCIPAL if tier == "quick" else kinds):
         if tier != "quick" and kind in FULL8:    # every splitting of both sides
             vs = variants(kind, UNIVERSE8, MAX_LINES)
@@ -463,22 +462,25 @@ def cases(tier, seed, part, nparts):
                     if i % nparts == part:
                         yield dict(kind=kind, old_lines=list(o), new_lines=list(n))
         else:                                    # one splitting per side, rotating with the pair index (capped splittings)
+            stride = 4 if tier == "quick" else 2     # every 4th / 2nd pair of the sweep
             fv = first_variants(kind, UNIVERSE8)
             p = 0
             for o in fv:
                 for n in fv:
                     p += 1
+                    if p % stride:
+                        continue
                     i += 1
                     if i % nparts == part:
-                        yield dict(kind=kind, old_lines=list(o[p % len(o)]), new_lines=list(n[(p // 5) % len(n)]))
+                        yield dict(kind=kind, old_lines=list(o[(p // stride) % len(o)]), new_lines=list(n[(p // (5 * stride)) % len(n)]))
     # (R) seeded random subsets of 1..4094
-    nrand = 300 if tier == "quick" else 8000
+    nrand = 100 if tier == "quick" else 4000
     for kind in kinds:
         for j in range(nrand):
             i += 1
             if i % nparts == part:
                 yield random_case(kind, random.Random("%s/%s/%d" % (seed, kind, j)))
-    for j in range(200 if tier == "quick" else 5000):
+    for j in range(100 if tier == "quick" else 3000):
         i += 1
         if i % nparts == part:
             rng = random.Random("%s/lib/%d" % (seed, j))
@@ -512,20 +514,21 @@ def run(tier="quick", seed=0, part=0, nparts=1):
             if per_key[key] <= 3:
                 failures.append(dict(key=key, text=text, case=case, expected=_j(exp), actual=_j(act)))
     if tier == "quick":
-        scope = ("(A) all pairs of subsets of {2,3,4,10,11,20} x every splitting of each run list over 1..4 lines (1..2 lines for hybrid "
-                 "tagged/untagged, cisco vlan, vlan group), all 11 kinds; "
-                 "(B) all 65536 pairs of subsets of {2,3,4,5,10,11,20,30}, one splitting per side rotating with the pair index, for "
-                 "huawei trunk allow-pass and nexus swtrunk; ")
-        bound = "subsets of an 8-element universe, 1..4 lines; every splitting on 6 elements (7 kinds to 4 lines, 4 kinds to 2 lines); 300 random sets per kind to 4094"
+        scope = ("(A) all pairs of subsets x every splitting of each run list over 1..4 lines: on {2,3,4,10,11}, all 10 kinds; "
+                 "(B) every 4th of the 65536 pairs of subsets of "
+                 "{2,3,4,5,10,11,20,30}, one splitting per side rotating with the pair index, for huawei trunk allow-pass and nexus "
+                 "swtrunk; ")
+        bound = ("subsets of an 8-element universe (1/4 of the pairs), 1..4 lines; every splitting on 5 elements (all kinds); "
+                 "100 random sets per kind to 4094")
     else:
         scope = ("(A) all pairs of subsets x every splitting of each run list over 1..4 lines: on {2,3,4,5,10,11,20,30} for huawei trunk "
-                 "allow-pass (1277^2), on {2,3,4,10,11,20,30} for nexus/cisco swtrunk, vlan batch, vlan pool, cisco/nexus vlan, on "
-                 "{2,3,4,10,11,20} for hybrid tagged/untagged, vlan group, stp instance (1 line); (B) all 65536 pairs of subsets of the "
-                 "8-element universe with one splitting per side rotating with the pair index, the other 10 kinds; ")
-        bound = ("subsets of an 8-element universe, 1..4 lines; every splitting on 8 elements (huawei trunk), 7 (6 kinds), 6 (rest); "
-                 "8000 random sets per kind to 4094")
+                 "allow-pass (1277^2), on {2,3,4,10,11,20,30} for nexus swtrunk and vlan batch, on {2,3,4,10,11,20} for the other 7 kinds; "
+                 "(B) every 2nd of the 65536 pairs of subsets of the 8-element universe with one splitting per side rotating with the "
+                 "pair index, the other 9 kinds; ")
+        bound = ("subsets of an 8-element universe, 1..4 lines; every splitting on 8 elements (huawei trunk), 7 (2 kinds), 6 (rest); "
+                 "4000 random sets per kind to 4094")
     return dict(evaluations=ev, nontrivial=sorted(nontrivial), failures=failures, samples=samples,
-                rule="11 rule kinds (huawei multi_all x3 [trunk allow-pass, hybrid tagged, hybrid untagged], multi x2 [vlan batch, vlan pool], "
+                rule="10 rule kinds (huawei multi_all x3 [trunk allow-pass, hybrid tagged, hybrid untagged], multi [vlan batch], "
                      "single [stp instance]; cisco+nexus swtrunk, cisco+nexus `vlan` simple, cisco vlan group simple) through the shipped "
                      "rulebooks and make_diff/make_pre/make_patch/cmd_paths (cisco trunk: empty set also as the line `none`). " + scope +
                      "(R) seeded random sets of 1..4094 (1..40 runs, new = old with runs dropped/shrunk/added, or unrelated; 1..4 lines); "
